@@ -50,6 +50,7 @@ def c08(ctx):
         "Crafts": True,
         "LinkRing": 4 if q else 8,
         "ReuseLen": 4 if q else 5,
+        "Conc": True,
     }
     # one TLC run: meta-properties of the verdict relation on every reachable signature record
     # (MetaAll, TamperMonotone, LinkSound) and generation of every behaviour Sign;Tamper*;Verify
@@ -58,10 +59,10 @@ def c08(ctx):
                      "C08_gen")
     res = ctx.run_vh("c08", ["-in", bh, "-max", 0 if q else 60000, "-maxslow", 80 if q else 1500, "-bindings", 6 if q else 2], binary=ctx.build(pkg=PKG))
     oc = (res.get("extra") or {}).get("outcomes", {})
-    _need(oc, ["verdict:accept:accept", "verdict:reject:reject", "verdict:free:", "link:equal", "link:different", "reuse:accept:accept", "reuse:reject:reject"], "C08")
+    _need(oc, ["verdict:accept:accept", "verdict:reject:reject", "verdict:free:", "link:equal", "link:different", "reuse:accept:accept", "reuse:reject:reject", "reuse:audit", "conc:all-accept"], "C08")
     if not q:
         # larger abstract space without generation: three manipulations / deviating arguments per behaviour
-        big = dict(consts, MaxDist=3, MlAllUpTo=0, LinkRing=0, MaxRing=5, ReuseLen=0)
+        big = dict(consts, MaxDist=3, MlAllUpTo=0, LinkRing=0, MaxRing=5, ReuseLen=0, Conc=False)
         ctx.tlc("SigVerify", cfg(constants=big, invariants=["TypeOK", "MetaAll"], properties=["TamperMonotone"], view="View"), name="C08_mc3")
     return ctx.finish(
         "model_checking",
